@@ -1,1 +1,2 @@
 import NjectGen.Registry
+import NjectGen.Micro
